@@ -382,15 +382,19 @@ def _stub_estimator(N):
     return f
 
 
-def case_glue(ctx, shape, method, N=4):
+def case_glue(ctx, shape, method, N=4, fortran=False):
     """estimate_directional_distribution: each spectrum of a batch gets the single-spectrum result, degrees Jacobian"""
     if ctx.mode != "sym":
-        return _conc_glue(ctx, shape, method)
+        return _conc_glue(ctx, shape, method, fortran=fortran)
     import ocean_science_utilities.wavespectra.estimators.estimate as EST_MOD
     ctx.patch(EST_MOD, "np", SymNP())
     ctx.patch(EST_MOD, "mem", _stub_estimator(N))
     ctx.patch(EST_MOD, "mem2", _stub_estimator(N))
     mom = {n: ctx.reals(n, shape) for n in ("a1", "b1", "a2", "b2")}
+    if fortran:
+        # the same values in Fortran (column-major) memory order, as a transposed view or xarray .transpose() gives:
+        # which spectrum a distribution belongs to must not depend on the memory layout of the input
+        mom = {n: np.asfortranarray(v) for n, v in mom.items()}
     direction = ctx.const(np.array([360.0 * k / N for k in range(N)]))
     out = EST_MOD.estimate_directional_distribution(mom["a1"], mom["b1"], mom["a2"], mom["b2"], direction, method)
     ctx.check(out.shape == tuple(shape) + (N,), "D-GLUE.shape")
@@ -403,7 +407,7 @@ def case_glue(ctx, shape, method, N=4):
     ctx.reach("D-GLUE")
 
 
-def _conc_glue(ctx, shape, method, N=12):
+def _conc_glue(ctx, shape, method, N=12, fortran=False):
     """replay with the real estimators on fixed valid moments (cos^2s seas): batch element == single result, and the
     distribution per degree integrates to one"""
     import ocean_science_utilities.wavespectra.estimators.estimate as EST_MOD
@@ -416,6 +420,8 @@ def _conc_glue(ctx, shape, method, N=12):
     a2, b2 = (r2 * np.cos(2 * th0)).reshape(shape), (r2 * np.sin(2 * th0)).reshape(shape)
     direction = np.linspace(0, 360, N, endpoint=False)
     kw = dict(solution_method="newton") if method == "mem2" else {}
+    if fortran:
+        a1, b1, a2, b2 = (np.asfortranarray(x) for x in (a1, b1, a2, b2))
     out = EST_MOD.estimate_directional_distribution(a1, b1, a2, b2, direction, method, **kw)
     ok = out.shape == tuple(shape) + (N,)
     ctx.check(ok, "D-GLUE.shape")
@@ -495,6 +501,8 @@ def cases(tier):
     for shape in ((3,), (2, 3), (3, 1, 2)):
         for method in ("mem", "mem2"):
             add("case_glue", f"glue_{method}_{'x'.join(map(str, shape))}", shape=list(shape), method=method)
+    add("case_glue", "glue_mem_fortran_2x3", shape=[2, 3], method="mem", fortran=True)
+    add("case_glue", "glue_mem2_fortran_3x2x2", shape=[3, 2, 2], method="mem2", fortran=True)
     add("case_energy_roundtrip", "energy_roundtrip_nf2", nf=2)
     for dg, nd in (("uniform0", 4), ("uniform_off", 6), ("nonuniform", 5), ("past360", 4), ("uniform_neg", 6)):
         add("case_direction_increment", f"dir_increment_{dg}_{nd}", dgrid=dg, nd=nd)
